@@ -5,7 +5,8 @@
 //! case line `C10m <src>,<src>,…` (src = `none` | hex of the *uncompressed* tile);
 //! answer `none` | `ok <semantic dump, layers in output order = sorted by name since /repo d0cb5799>` | `err` | `panic`.
 //! The real operation is built from VPL over in-memory sources (plain / gzip / brotli) and read through
-//! `get_tile_data` and (every 3rd case) `get_tile_stream`.
+//! `get_tile_data` and (2 of 3 cases) `get_tile_stream`; in the stream earlier sources suspend longer
+//! than later ones (staggered `yield_now`), so a merge that collects in completion order is exposed.
 use crate::c11::{diff_kind, make_factory, runtime, SourceSpec, Sources};
 use crate::common::*;
 use crate::indep_mvt::*;
@@ -37,6 +38,8 @@ fn compress(b: &[u8], c: TileCompression) -> Vec<u8> {
 
 pub struct MergeCase {
 	pub sources: Vec<(Option<Vec<u8>>, TileCompression)>,
+	/// source i of k suspends (k - i) * stagger times before its stream delivers: earlier sources finish later
+	pub stagger: u32,
 }
 
 enum Res {
@@ -60,7 +63,7 @@ impl Runner {
 			if let Some(b) = t {
 				tiles.insert((4u8, 5u32, 6u32), compress(b, *comp));
 			}
-			map.insert(format!("s{i}"), SourceSpec { tiles, compression: *comp });
+			map.insert(format!("s{i}"), SourceSpec { tiles, compression: *comp, yields: (c.sources.len() - i) as u32 * c.stagger });
 		}
 		let sources: Sources = Arc::new(Mutex::new(map));
 		let factory = make_factory(&self.dir, sources);
@@ -198,7 +201,8 @@ fn emit(out: &mut Out, runner: &Runner, c: &MergeCase, with_stream: bool) {
 			_ => false,
 		};
 		out.eval(&format!("stream {line}"), nontrivial);
-		out.oracle(same, "C10 merge: get_tile_stream delivers different content than get_tile_data", json!({"kind": "stream_differs"}), json!({"case": line}));
+		out.count(&format!("stream_stagger_{}", c.stagger));
+		out.oracle(same, &format!("C10 merge: get_tile_stream (sources staggered by {}) delivers different bytes than get_tile_data (feature order must be source order, not completion order)", c.stagger), json!({"kind": "stream_differs"}), json!({"case": line, "stagger": c.stagger}));
 	}
 }
 
@@ -217,7 +221,7 @@ fn opts(rng: &mut Rng) -> GenOpts {
 pub fn run(args: &Args) {
 	quiet_panics();
 	let mut out = Out::new(&args.out);
-	out.rule = "2–4 sources, each without a tile or with a tile from the independent MVT encoder (overlapping layer names, different key/value tables incl. duplicates and int64/sint64 twins, differing extents/versions, empty layers; a few tiles with a repeated layer name = model only), stored plain / gzip / brotli; the real from_vectortiles_merged built from VPL, read through get_tile_data and (every 3rd case) get_tile_stream; oracle: independent decoder's reading of the output vs per-name concatenation of the inputs' features in source order (extent/version of a merged layer not judged), existence, declared compression. non-trivial: at least two sources have the tile and share a non-empty layer name; distinct by case text".into();
+	out.rule = "2–4 sources, each without a tile or with a tile from the independent MVT encoder (overlapping layer names, different key/value tables incl. duplicates and int64/sint64 twins, differing extents/versions, empty layers; a few tiles with a repeated layer name = model only), stored plain / gzip / brotli; the real from_vectortiles_merged built from VPL, read through get_tile_data and (2 of 3 cases) get_tile_stream with staggered sources (source i of k yields (k-i)*c times, c seeded 0..3, so earlier sources complete later); oracle: independent decoder's reading of the output vs per-name concatenation of the inputs' features in source order (extent/version of a merged layer not judged), existence, declared compression. non-trivial: at least two sources have the tile and share a non-empty layer name; distinct by case text".into();
 	let dir = args.out.join("c10-data");
 	std::fs::create_dir_all(&dir).unwrap();
 	let runner = Runner { rt: runtime(), dir };
@@ -225,7 +229,7 @@ pub fn run(args: &Args) {
 		for line in std::fs::read_to_string(p).unwrap().lines() {
 			let t: Vec<&str> = line.split(' ').collect();
 			if t.len() == 2 && t[0] == "C10m" {
-				let c = MergeCase { sources: t[1].split(',').map(|s| (if s == "none" { None } else { Some(unhex(s)) }, TileCompression::Uncompressed)).collect() };
+				let c = MergeCase { sources: t[1].split(',').map(|s| (if s == "none" { None } else { Some(unhex(s)) }, TileCompression::Uncompressed)).collect(), stagger: 2 };
 				emit(&mut out, &runner, &c, true);
 			}
 		}
@@ -250,7 +254,8 @@ pub fn run(args: &Args) {
 				sources.push((Some(encode_tile(&tile, &st)), comp));
 			}
 		}
-		emit(&mut out, &runner, &MergeCase { sources }, i % 3 == 0);
+		let stagger = rng.below(4) as u32;
+		emit(&mut out, &runner, &MergeCase { sources, stagger }, i % 3 != 2);
 	}
 	out.finish();
 }
